@@ -186,10 +186,15 @@ def _run(orc, meas, skipped, idx, it, r, progs, mod, k):
                 xs = xs_given
             else:
                 xs = []
+                gk = gkind
+                if gkind == "nonaffine" and prog.itype == "cell" and any(
+                        pt.nderiv >= 2 or (pt.nderiv >= 1 and any(s_["map"] != "identity" for sp in prog.spaces.values() for s_ in sp.subs))
+                        for pt in prog.parts):
+                    gk = "gentle"
                 for s in range(prog.nsides):
                     fac = ent[s] if (prog.itype in ("exterior_facet", "interior_facet")
                                      or (prog.itype == "expression" and prog.etype == "facet")) else None
-                    xs.append(s5.make_geometry(prog, gkind, rnd, facet=fac))
+                    xs.append(s5.make_geometry(prog, gk, rnd, facet=fac))
             lo, hi = it.get("data_range", (-3, 3))
             w, c = s5.random_data(prog, rnd, cx, lo, hi)
             if extra.get("w") is not None:
